@@ -20,7 +20,7 @@ import numpy as np
 from toqito.channel_ops import apply_channel, complementary_channel, dual_channel, kraus_to_choi
 from toqito.channels import partial_trace
 
-from ..exact import NotExact, call, split_int, present
+from ..exact import NotExact, call, split_int, present, strict_fp_call
 from .c04 import Z, gint, jkraus, jmat, mat_eq, safe_jmat, spec_apply, spec_choi, z_eq_arr
 
 RULE = ("dual_channel: random Kraus families (A_i, B_i) with Gaussian-integer entries (complex, non-symmetric, |re|,|im| < 2^6), ranks 1..5, input and "
@@ -30,7 +30,12 @@ RULE = ("dual_channel: random Kraus families (A_i, B_i) with Gaussian-integer en
         "inputs rho random Gaussian-integer matrices and pure states. Non-trivial: input and output spaces with more than one entry (dual), d >= 2 and rank >= 2 "
         "(complementary); distinct = hash of (function, form, dims, rank, kind). Criteria stream (square spaces, dims >= 2): toqito's partial_trace of the Choi matrix returned by "
         "kraus_to_choi over the output factor must equal (sum_k B_k^dagger A_k)^T and over the input factor Phi(1) = sum_k A_k B_k^dagger, exactly. When rank == dimension the "
-        "complementary channel of the returned complementary family must be the original family, exactly. Not generated: Choi matrices that are row/column vectors, empty lists.")
+        "complementary channel of the returned complementary family must be the original family, exactly. Not generated: Choi matrices that are row/column vectors, empty lists. "
+        "Stream w5 (fixed list of kinds, 3 sizes each, data from a fresh child of the seeded generator spawned after all other streams; one seed per case): dual_channel on flat / paired Kraus lists containing an "
+        "all-zero operator and rank-one operators, on an all-zero and a rank-one Choi matrix; complementary_channel on exactly complete families with an appended zero operator, on rank-one "
+        "(matrix-unit) families and on four copies of U/2 (U a signed complex permutation). strict-fp: every case is evaluated once in NumPy's default floating-point error state and once with "
+        "invalid / divide / overflow set to raise (harness.exact.strict_fp_call): same outcome, bitwise equal arrays. same-object: lists in which ONE ndarray object occurs in several positions "
+        "([A, A, B], [[A, A], [B, C]], [[A, B], [A, B]], [K, K, K, K]) against the same list built from equal copies: same outcome, equal arrays; the inputs must be untouched")
 ASSUMPTIONS = [
     "a bilinear/trilinear identity that fails holds on a random point of a box of side 2^6 per coordinate with probability <= 3/2^6 per case (Schwartz-Zippel)",
     "the completeness guard np.allclose(sum K^dagger K, I) is exercised only on exactly complete families (as rounded to doubles) and on families that miss completeness by a margin >= 1/4",
@@ -450,6 +455,112 @@ def rand_dims2(rng, hi=4, square_p=0.5):
         return (a, a), (b, b)
     return (int(rng.integers(1, hi + 1)), int(rng.integers(1, hi + 1))), (int(rng.integers(1, hi + 1)), int(rng.integers(1, hi + 1)))
 
+# ------------------------------------------------------------------------------------------------
+# stream w5: strict floating-point error state; one array object in several positions of the list
+
+
+W5_KINDS = ["dual-flat-zero-op", "dual-flat-same", "dual-pairs-same", "dual-pairs-rows-same", "dual-choi-zero", "dual-choi-rank1",
+            "compl-zero-op", "compl-same", "compl-matrix-units", "compl-tp"]
+
+
+def _w5_eq(a, b):
+    if isinstance(a, (list, tuple)) or isinstance(b, (list, tuple)):
+        return isinstance(a, (list, tuple)) and isinstance(b, (list, tuple)) and len(a) == len(b) and all(_w5_eq(x, y) for x, y in zip(a, b))
+    a, b = np.asarray(a), np.asarray(b)
+    return a.shape == b.shape and bool(np.array_equal(a, b))
+
+
+def _w5_build(kind, rng):
+    """(function, make(alias) -> (args, kwargs), description); make(True) puts ONE array object wherever make(False) puts equal copies"""
+    def gi(r, c, cplx=True):
+        m = rng.integers(-9, 10, size=(r, c)).astype(complex if cplx else float)
+        return m + 1j * rng.integers(-9, 10, size=(r, c)) if cplx else m
+
+    def one(x, alias):
+        return x if alias else x.copy()
+
+    do, di = int(rng.integers(1, 4)), int(rng.integers(1, 4))
+    if kind == "dual-flat-zero-op":
+        A, B, Zr = gi(do, di), np.outer(gi(do, 1), gi(1, di)), np.zeros((do, di), dtype=complex)
+        return dual_channel, (lambda alias: (([A.copy(), Zr.copy(), B.copy()],), {})), {"shape": [do, di]}
+    if kind == "dual-flat-same":
+        A, B = gi(do, di), gi(do, di, False)
+        return dual_channel, (lambda alias: (([one(A, alias), one(A, alias), B.copy()],), {})), {"shape": [do, di]}
+    if kind == "dual-pairs-same":
+        A, B, C = gi(do, di), gi(do, di), np.zeros((do, di))
+        return dual_channel, (lambda alias: (([[one(A, alias), one(A, alias)], [B.copy(), C.copy()]],), {})), {"shape": [do, di]}
+    if kind == "dual-pairs-rows-same":
+        A, B = gi(do, di), gi(do, di)
+        return dual_channel, (lambda alias: (([[one(A, alias), one(B, alias)], [one(A, alias), one(B, alias)]],), {})), {"shape": [do, di]}
+    if kind in ("dual-choi-zero", "dual-choi-rank1"):
+        n = do * di
+        if n == 1:
+            do, n = 2, 2 * di
+        v = gi(n, 1)
+        J = np.zeros((n, n), dtype=complex) if kind == "dual-choi-zero" else v @ v.conj().T
+        return dual_channel, (lambda alias: ((J.copy(),), {"dims": [di, do]})), {"shape": [n, n], "dims": [di, do]}
+    d = int(rng.integers(1, 4))
+    if kind == "compl-zero-op":
+        _, _, Ks, _ = tp_family(rng, d, int(rng.integers(1, 4)))
+        pos = int(rng.integers(len(Ks) + 1))
+        Ks = Ks[:pos] + [np.zeros((d, d), dtype=complex)] + Ks[pos:]
+        return complementary_channel, (lambda alias: (([k.copy() for k in Ks],), {})), {"d": d, "rank": len(Ks), "zero_at": pos}
+    if kind == "compl-same":
+        U = np.zeros((d, d), dtype=complex)
+        for i, j in enumerate(rng.permutation(d)):
+            U[i, j] = (1, -1, 1j, -1j)[int(rng.integers(4))]
+        K = U / 2
+        return complementary_channel, (lambda alias: (([one(K, alias) for _ in range(4)],), {})), {"d": d, "rank": 4}
+    if kind == "compl-matrix-units":
+        d = max(d, 2)
+        Ks = []
+        for j in range(d):
+            E = np.zeros((d, d))
+            E[int(rng.integers(d)), j] = 1.0
+            Ks.append(E)
+        return complementary_channel, (lambda alias: (([k.copy() for k in Ks],), {})), {"d": d, "rank": d}
+    _, _, Ks, _ = tp_family(rng, d, int(rng.integers(1, 4)))
+    return complementary_channel, (lambda alias: (([k.copy() for k in Ks],), {})), {"d": d, "rank": len(Ks)}
+
+
+def check_w5(ctx, kind, seed):
+    rng = np.random.default_rng(int(seed))
+    fn, make, d = _w5_build(kind, rng)
+    name = fn.__name__
+    desc = dict(d, fn="w5", kind=kind)
+    ctx.case(desc, True, f"w5/{kind}")
+    info = {"case_seed": int(seed), "function": name, "args": desc, "theorem": "the function's value is a function of the VALUES of its arguments (the mirror model has no global state and no object identity)"}
+    a0, k0 = make(False)
+    ref = call(fn, *a0, **k0)
+    a1, k1 = make(False)
+    st = strict_fp_call(fn, *a1, **k1)
+    if ref[0] == "ok" and st[0] == "raise":
+        return not ctx.violation(f"{name}: value depends on NumPy's floating-point error state (default state: a value; invalid/divide/overflow set to 'raise': {st[1]}), case {kind}", dict(info, impl=st[1]))
+    if (ref[0] == "ok") != (st[0] == "ok") or (ref[0] == "ok" and not _w5_eq(ref[1], st[1])):
+        return not ctx.violation(f"{name}: outcome under the strict floating-point error state differs from the default state, case {kind}", dict(info, impl=str(st)[:200], model=str(ref)[:200]))
+    if kind.startswith("compl") and ref[0] != "ok":
+        return not ctx.violation(f"complementary_channel: {ref[0]} ({ref[1]}) on an exactly complete family, case {kind}", info)
+    if kind.endswith("same"):
+        a2, k2 = make(True)
+        snap = [np.array(x) for x in (itertools.chain.from_iterable(a2[0]) if isinstance(a2[0][0], list) else a2[0])]
+        al = call(fn, *a2, **k2)
+        now = [np.array(x) for x in (itertools.chain.from_iterable(a2[0]) if isinstance(a2[0][0], list) else a2[0])]
+        if al[0] != ref[0] or (al[0] == "ok" and not _w5_eq(al[1], ref[1])) or (al[0] != "ok" and al[1].split(":")[0] != ref[1].split(":")[0]):
+            return not ctx.violation(f"{name}: a list in which one array object occurs several times gives a different result than the list of equal copies, case {kind}",
+                                     dict(info, impl=str(al)[:200], model=str(ref)[:200]))
+        if not _w5_eq(snap, now):
+            return not ctx.violation(f"{name}: the caller's arrays were modified, case {kind}", dict(info, check="purity"))
+        ctx.count("w5/same-object-agree")
+    ctx.count("w5/strict-fp-agree")
+    return True
+
+
+def w5_stream(ctx):
+    srng = ctx.rng.spawn(1)[0]
+    for kind in W5_KINDS:
+        for _ in range(3):
+            check_w5(ctx, kind, int(srng.integers(1 << 62)))
+
 
 def run(ctx, model_ok=True):
     rng = ctx.rng
@@ -492,13 +603,16 @@ def run(ctx, model_ok=True):
                 check_compl(ctx, d, r)
     for it in range(40 if quick else 600):
         check_compl_reject(ctx, int(rng.integers(1, 4)), int(rng.integers(1, 4)), ["scaled", "dropped", "nonsquare", "empty"][it % 4])
+    w5_stream(ctx)   # a fresh child of the seeded generator, spawned last: no other stream shifts
     ctx.extra["tolerances"] = {"dual": 0, "complementary structure": 0, "complementary entries / trace": "1e-9*scale", "complementary spectrum": "1e-8*scale"}
 
 
 def replay(ctx, rec):
     a = rec["args"]
     sd = rec.get("case_seed")
-    if a.get("fn") == "dual_channel":
+    if a.get("fn") == "w5":
+        check_w5(ctx, a["kind"], sd)
+    elif a.get("fn") == "dual_channel":
         check_dual(ctx, tuple(a["din"]), tuple(a["dout"]), a["rank"], a["cp"], a["complex"], seed=sd)
     elif a.get("malformed"):
         check_compl_reject(ctx, a["d"], a["rank"], a["malformed"], seed=sd)
